@@ -111,6 +111,12 @@ type machine struct {
 	hstat *hstat
 	trace map[int]bool // ids of the ops that were started (nil: not recorded)
 	light bool         // control flow only: no snapshots, no restores (used to filter generated programs)
+	// vmPending (triage only, never the oracle): what the VM does with a call that
+	// COMPLETES while an exception is pending (a call made in a finally part that
+	// was entered by an exception): the unload callback sees the pending exception
+	// and drops the callee's changes; a native's callback into a contract faults.
+	vmPending bool
+	thrown    map[int]bool // ids of the contract calls whose callee failed with an exception
 }
 
 // entry frame of a hand-assembled script: no contract, no storage
@@ -131,6 +137,10 @@ func (m *machine) exec(f *frame, ops []Op) outcome {
 		}
 		if f.inst >= 0 && m.st.Destroyed[f.inst] && o.K != '!' {
 			return oFault // generated programs never continue after a self-destruction except by THROW
+		}
+		var dropTo *State
+		if m.vmPending && m.pending && strings.IndexByte("X~$FKUYZ", o.K) >= 0 {
+			dropTo = m.st.clone()
 		}
 		switch o.K {
 		case 'E':
@@ -190,6 +200,9 @@ func (m *machine) exec(f *frame, ops []Op) outcome {
 			// native call: needs ReadStates|AllowCall to call, States for the method, committee witness
 			if f.flags&(fRead|fCall) != fRead|fCall || f.flags&(fRead|fWrite) != fRead|fWrite || !m.committee {
 				return oFault
+			}
+			if m.vmPending && m.pending {
+				return oFault // a void method unloaded under a pending exception pushes no Null: the script's stack discipline breaks
 			}
 			m.calls++
 			m.st.Fee = int64(1000 + o.ID)
@@ -275,10 +288,12 @@ func (m *machine) exec(f *frame, ops []Op) outcome {
 			case oThrown: // replaces whatever was pending
 				return oThrown
 			}
+			if m.pending {
+				// ENDFINALLY rethrows whatever is pending - also when this finally part was
+				// entered normally inside an outer finally part that runs with a pending exception
+				return oThrown
+			}
 			if out == oThrown {
-				if m.pending {
-					return oThrown // ENDFINALLY rethrows
-				}
 				// the pending exception was cleared inside the finally part: ENDFINALLY then
 				// jumps to the end offset, which only ENDTRY sets - the VM faults
 				if hs != nil {
@@ -307,11 +322,15 @@ func (m *machine) exec(f *frame, ops []Op) outcome {
 				return oFault
 			case oThrown:
 				m.restores++
+				m.thrown[o.ID] = true
 				if stateSig(snap) != stateSig(m.st) {
 					m.undone = true
 				}
 				m.st = snap
 				return oThrown
+			}
+			if m.vmPending && m.pending {
+				m.st = snap
 			}
 			f.log = append(f.log, "["+strings.Join(cf.log, ",")+"]")
 		case 'T':
@@ -325,10 +344,18 @@ func (m *machine) exec(f *frame, ops []Op) outcome {
 					return out
 				}
 			default:
+				if m.pending {
+					// U's TRY is a compiled defer: its ENDFINALLY rethrows an exception that is
+					// pending in the VM (the caller's, when U runs inside a finally part)
+					return oThrown
+				}
 				f.log = append(f.log, "70")
 			}
 		default:
 			panic("model: bad op " + string(o.K))
+		}
+		if dropTo != nil && m.pending {
+			m.st = dropTo
 		}
 	}
 	return oOK
@@ -377,6 +404,9 @@ func (m *machine) transfer(f *frame, tok string, from, to int, amt int64, data [
 	m.st.Notes = append(m.st.Notes, fmt.Sprintf("%s:Transfer:[%s,%s,%d]", tok, princNames[from], princNames[to], amt))
 	if to <= pC && !m.st.Destroyed[to] { // a contract: onNEP17Payment(from, amount, data)
 		m.calls++
+		if m.vmPending && m.pending {
+			return oFault
+		}
 		if hasData {
 			pf := &frame{inst: to, flags: fAll}
 			if out := m.exec(pf, data); out != oOK {
@@ -405,6 +435,8 @@ type Result struct {
 	Calls    int    `json:"calls"`
 	Restores int    `json:"restores"`
 	Undone   bool   `json:"undone"`
+	// Thrown: ids of the contract calls whose callee failed with an exception
+	Thrown map[int]bool `json:"-"`
 }
 
 // runModel interprets prog on a copy of init.
@@ -415,8 +447,17 @@ func runModel(init *State, prog []Op, committee bool) *Result {
 // hstat counts what the handlers of a hand-assembled script did in the model.
 type hstat struct{ catches, finallies, finalliesPending, swallowed int }
 
+// runModelVM is the triage variant (see machine.vmPending); it is never used as the oracle.
+func runModelVM(init *State, prog []Op, committee bool) *Result {
+	return runModelOpt(init, prog, committee, nil, true)
+}
+
 func runModelStat(init *State, prog []Op, committee bool, hs *hstat) *Result {
-	m := &machine{st: init.clone(), committee: committee, hstat: hs}
+	return runModelOpt(init, prog, committee, hs, false)
+}
+
+func runModelOpt(init *State, prog []Op, committee bool, hs *hstat, vmPending bool) *Result {
+	m := &machine{st: init.clone(), committee: committee, hstat: hs, vmPending: vmPending, thrown: map[int]bool{}}
 	m.st.Notes = nil
 	f := &frame{inst: pA, flags: fAll}
 	body := prog
@@ -436,7 +477,7 @@ func runModelStat(init *State, prog []Op, committee bool, hs *hstat) *Result {
 			f.log = append(f.log, fmt.Sprint(m.st.Deployed)) // ContractManagement.isContract(UD)
 		}
 	}
-	res := &Result{Calls: m.calls, Restores: m.restores, Undone: m.undone}
+	res := &Result{Calls: m.calls, Restores: m.restores, Undone: m.undone, Thrown: m.thrown}
 	if out != oOK {
 		res.State = init.clone()
 		res.State.Notes = nil
